@@ -8,6 +8,7 @@ mod hubcore;
 mod obs;
 mod params;
 mod props;
+mod reward;
 mod runner;
 mod unbondlc;
 
